@@ -388,6 +388,8 @@ def replay_jq(spec):
     from harness.c17 import Gate, GSem, GLock, Blocked
     if spec.get('scenario') == 'feeder':
         return replay_feeder(spec)
+    if spec.get('scenario') == 'simplequeue':
+        return replay_sq(spec)
     gate = Gate(spec['schedule'])
     sems = {n: GSem(gate, n, v) for n, v in (('Q', 1), ('B', 0), ('PIPE', 0), ('U', 0), ('S', 0), ('W', 0), ('X', 0))}
     lockN, lockL, lockR = GLock(gate), GLock(gate), GLock(gate)
@@ -673,6 +675,154 @@ def replay_feeder(spec):
         return False if (state['starts'] == 1 and sems['B'].value == 2) else True
     if state['starts'] <= 1 and sems['B'].value == 2:
         hbase.trace('NOT REPRODUCED: natively one feeder start and both items buffered')
+        return True
+    hbase.REPLAY['tag'] = 'C16:' + str(spec.get('property'))
+    return False
+
+
+# ---------------------------------------------------------------------------
+# (e) E2: SimpleQueue - "really just a locked pipe": put/get of several threads/processes never interleave inside a message
+
+def sq_system(nprod=2, ncons=2):
+    from vlib import py2ts
+    from vlib.py2ts import Asm, Obj
+    from vlib.bmc import System
+    base, _ = py2ts.load_class_methods('billiard/queues.py', '_SimpleQueue')
+    sub, _ = py2ts.load_class_methods('billiard/queues.py', 'SimpleQueue')
+    meth = dict(base)
+    meth.update(sub)                     # SimpleQueue overrides get_payload / send_payload
+    env = {
+        'self._rlock': Obj('lock', 'RL'),
+        'self._wlock': Obj('lock', 'WL'),
+        'self._writer.send_bytes': Obj('pipe_send_framed', 'PIPE', frame='WFRAME'),
+        'self._reader.recv_bytes': Obj('pipe_recv_framed', 'PIPE', frame='RFRAME'),
+    }
+    methods = {('self', n): (meth[n], env, n + '.') for n in ('get_payload', 'send_payload')}
+    threads = []
+    for i in range(nprod + ncons):
+        fn = meth['put'] if i < nprod else meth['get']
+        a = Asm()
+        c = py2ts.Compiler(a, env, methods, prefix='t%d.' % i, consts={'obj': 0})
+        rv = a.tmp('result')
+        end = a.label('callend')
+        c.ret_stack.append((rv, end))
+        a.emit('set', rv, ('const', 0))
+        c.block(fn.body)
+        a.place(end)
+        a.emit('ret', ('loc', rv))
+        threads.append(a.link())
+    return System(threads, sems={'PIPE': 0, 'WFRAME': 1, 'RFRAME': 1}, locks={'RL': 0, 'WL': 0})
+
+
+def ob_simplequeue(tier):
+    import z3
+    from vlib import bmc
+    from vlib.bmc import BVV
+    nprod = ncons = 2
+    sysm = sq_system(nprod, ncons)
+    n = nprod + ncons
+    K = sum(sum(1 for ins in p if ins[0] in bmc.VISIBLE) for p in sysm.threads) + 2
+
+    def framing(states):
+        return z3.Or(*[st['err'] for st in states])
+
+    def finish(states):
+        fin = states[-1]
+        return z3.Not(z3.And(*[sysm.ended(fin, i) for i in range(n)]))
+
+    def conservation(states):
+        fin = states[-1]
+        return z3.And(*[sysm.ended(fin, i) for i in range(n)] + [z3.Or(fin['sem']['PIPE'] != BVV(0), fin['sem']['WFRAME'] != BVV(1), fin['sem']['RFRAME'] != BVV(1))])
+    props = {'S1-no-writer-or-reader-inside-another-one-s-message': framing, 'S2-everybody-finishes': finish,
+             'S3-every-message-put-is-taken-exactly-once': conservation}
+    base = {'scenario': 'simplequeue', 'nprod': nprod, 'ncons': ncons, 'lengths': [len(p) for p in sysm.threads]}
+    detail = []
+    for name, bad in props.items():
+        r = bmc.check_property(sysm, K, bad, (), 600)
+        detail.append({'property': name, 'status': r['status'], 'K': K, 'unwinding': r.get('unwinding'), 'why': r.get('why')})
+        if r['status'] == 'violated':
+            return {'status': 'refuted', 'detail': detail, 'cex': {'args': [dict(base, property=name, schedule=r['schedule'], final=r['final'])], 'kwargs': {}},
+                    'solver_queries': bmc.STATS['queries'], 'solver_time_s': round(bmc.STATS['time'], 2)}
+        if r['status'] != 'holds':
+            return {'status': 'unknown', 'detail': detail, 'messages': [str(r.get('why') or r.get('result'))],
+                    'solver_queries': bmc.STATS['queries'], 'solver_time_s': round(bmc.STATS['time'], 2)}
+
+    def witness(states):
+        fin = states[-1]
+        # a run in which a consumer had to wait for its message (it took the read lock before anything was in the pipe)
+        return z3.And(*[sysm.ended(fin, i) for i in range(n)])
+    w = bmc.check_property(sysm, K, witness, (), 600)
+    ok = w['status'] == 'violated'
+    detail.append({'property': 'reachability-witness', 'status': 'sat' if ok else w['status']})
+    validated = 0
+    if ok:
+        if replay_sq(dict(base, property='conformance-witness', schedule=w['schedule'], final=w['final'])) is not False:
+            return {'status': 'error', 'detail': detail, 'messages': ['model and implementation diverge on a witness run of the SimpleQueue scenario']}
+        validated = 1
+        detail.append({'property': 'witness-replayed-on-the-real-classes', 'status': 'conforms'})
+    return {'status': 'confirmed' if ok else 'unknown', 'detail': detail, 'nontrivial_witness': ok, 'traces_validated': validated,
+            'solver_queries': bmc.STATS['queries'], 'solver_time_s': round(bmc.STATS['time'], 2),
+            'states': bmc.STATS['states'], 'transitions': bmc.STATS['transitions'],
+            'samples': [{'scenario': 'SimpleQueue: 2 producers || 2 consumers', 'K': K}]}
+
+
+def replay_sq(spec):
+    """native replay: the real SimpleQueue.put/get in real threads; the pipe ends are stand-ins whose header and body
+    transfers are gated steps, the locks gated stand-in locks"""
+    import threading
+    from harness import hbase
+    from harness.c17 import Gate, GSem, GLock, Blocked
+    gate = Gate(spec['schedule'])
+    sems = {'PIPE': GSem(gate, 'PIPE', 0), 'WFRAME': GSem(gate, 'WFRAME', 1), 'RFRAME': GSem(gate, 'RFRAME', 1)}
+
+    class Writer:
+        def send_bytes(self, data):
+            if not sems['WFRAME'].acquire(False):
+                raise AssertionError('another writer is in the middle of a message')
+            sems['WFRAME'].release()
+            sems['PIPE'].release()
+
+    class Reader:
+        def recv_bytes(self):
+            if not sems['RFRAME'].acquire(False):
+                raise AssertionError('another reader is in the middle of a message')
+            sems['PIPE'].acquire()
+            sems['RFRAME'].release()
+            return pickle.dumps(0)
+    q = bq.SimpleQueue.__new__(bq.SimpleQueue)
+    q._reader, q._writer = Reader(), Writer()
+    q._rlock, q._wlock = GLock(gate), GLock(gate)
+    q._poll = lambda *a: True
+    nprod, ncons = spec['nprod'], spec['ncons']
+    bodies = [(lambda: q.put(0) or 0) for _ in range(nprod)] + [(lambda: q.get() or 0) for _ in range(ncons)]
+    results, errors = {}, {}
+
+    def run(i, body):
+        gate.tids[threading.get_ident()] = i
+        try:
+            results[i] = body()
+        except Blocked:
+            results[i] = 'blocked'
+        except AssertionError as e:
+            errors[i] = str(e)
+            results[i] = 'assert'
+    threads = [threading.Thread(target=run, args=(i, b), daemon=True) for i, b in enumerate(bodies)]
+    for t in threads:
+        t.start()
+    for t in threads:
+        t.join(30)
+    hbase.trace('native results', results, 'errors', errors, 'diverged', gate.diverged, 'steps', gate.pos, 'of', len(gate.steps))
+    if gate.diverged and not errors:
+        hbase.trace('NOT REPRODUCED: model and implementation diverge:', gate.diverged)
+        return True
+    if spec.get('property') == 'conformance-witness':
+        return False if (not errors and all(results.get(i) == 0 for i in range(nprod + ncons))) else True
+    if spec.get('property', '').startswith('S1'):
+        if not errors:
+            hbase.trace('NOT REPRODUCED: no interleaved message natively')
+            return True
+    elif all(results.get(i) == 0 for i in range(nprod + ncons)) and sems['PIPE'].value == 0:
+        hbase.trace('NOT REPRODUCED: natively everybody finished and the pipe is empty')
         return True
     hbase.REPLAY['tag'] = 'C16:' + str(spec.get('property'))
     return False
